@@ -96,3 +96,58 @@ def cex_get(cex, prefix):
         if k.split('!')[0] == prefix:
             return v
     raise KeyError(prefix)
+
+
+# ------------------------------------------------------------------ exact grid floats for oracles
+def grid_f32(vm, name, values):
+    """an f32 taking one of `values` (exactly representable), selected by a symbolic index"""
+    bits = max(1, (len(values) - 1).bit_length())
+    sel = vm.fresh(bits, name + '_sel')
+    if len(values) < (1 << bits):
+        vm.assume(z3.ULT(sel.e, len(values)))
+    vm.notes.setdefault('grid', {})[name] = list(values)
+    return FSet.select(sel.e, list(values), F32)
+
+
+def grid_value(cex, vm, name):
+    return vm.notes['grid'][name][cex_get(cex, name + '_sel')]
+
+
+def f_add(a, b):
+    return f_arith('add', a, b)
+
+
+def f_sub(a, b):
+    return f_arith('sub', a, b)
+
+
+def f_mul(a, b):
+    return f_arith('mul', a, b)
+
+
+def f_div(a, b):
+    return f_arith('div', a, b)
+
+
+def f_lt(a, b):
+    return f_rel('lt', a, b)
+
+
+def f_le(a, b):
+    return f_rel('le', a, b)
+
+
+def f_ge(a, b):
+    return f_rel('ge', a, b)
+
+
+def f_gt(a, b):
+    return f_rel('gt', a, b)
+
+
+def f_eq(a, b):
+    return f_rel('eq', a, b)
+
+
+def f_to64(a):
+    return f_to(a, F64)
